@@ -13,6 +13,9 @@
 (*   ipubs sequence of instance status publications <<n, peer, state>>                                         *)
 (*   push  sequence of <<src, dst, iso, type, what>>: items appended to proxy FIFOs (iso: dst ISOLATED then)   *)
 (*   fails set of <<src, dst>>: XML-RPCs of the step that failed (transport)                                   *)
+(*   nfail sequence of <<n, j>>: XML-RPC failure notifications about j queued at n during the step            *)
+(*   for the delivery of a notification: n = instance, d = the instance the notification is about,            *)
+(*   k = "NOTIF_" \o kind                                                                                     *)
 (*   err   TRUE iff an internal error was observed (traceback in a critical log / non-RPCError exception)      *)
 (*   iso, snapchg  delivery from an origin the receiver holds ISOLATED / its full status snapshot changed      *)
 (* A ghost record g is a function of the history only (GhostInit, GhostStep).                                  *)
@@ -53,11 +56,13 @@ Min(S) == CHOOSE x \in S : \A y \in S : x <= y
 -----------------------------------------------------------------------------
 (* Ghost state *)
 \* fsmp / mp: last published Supvisors state / Master of each instance (in its current incarnation)
-\* entered[m]: master-driven states m published while being its own Master, since it last published ELECTION
+\* entered[m]: master-driven states m published while being its own Master (in its current incarnation); a slave
+\*             only ever sees its Master's past, so "after its Master has" means "the Master entered it before"
 \* ist[n][j]: last published state of j at n
 \* recvAt[n][j]: number of local ticks n had received when the last TICK of j was delivered to n (0: never)
 \* linc[n][j]: incarnation of j that sent the last TICK delivered to n
 \* susp[n][j]: a justification to declare j FAILED at n exists (an XML-RPC n->j failed, or j restarted)
+\* pendF[n][j]: INSTANCE_FAILURE notifications about j queued at n and not handled yet
 \* usermaster[n]: a Master chosen by the user through end_sync(master) on n
 GhostInit == [fsmp |-> [n \in Inst |-> "OFF"], mp |-> [n \in Inst |-> 0],
               entered |-> [n \in Inst |-> {}],
@@ -65,17 +70,18 @@ GhostInit == [fsmp |-> [n \in Inst |-> "OFF"], mp |-> [n \in Inst |-> 0],
               recvAt |-> [n \in Inst |-> [j \in Inst |-> 0]],
               linc |-> [n \in Inst |-> [j \in Inst |-> 0]],
               susp |-> [n \in Inst |-> [j \in Inst |-> FALSE]],
+              pendF |-> [n \in Inst |-> [j \in Inst |-> 0]],
               usermaster |-> [n \in Inst |-> 0]]
 
 ResetNode(g, n) == [g EXCEPT !.fsmp[n] = "OFF", !.mp[n] = 0, !.entered[n] = {},
                              !.ist[n] = [j \in Inst |-> "STOPPED"],
                              !.recvAt[n] = [j \in Inst |-> 0], !.linc[n] = [j \in Inst |-> 0],
-                             !.susp[n] = [j \in Inst |-> FALSE], !.usermaster[n] = 0]
+                             !.susp[n] = [j \in Inst |-> FALSE], !.pendF[n] = [j \in Inst |-> 0],
+                             !.usermaster[n] = 0]
 
 \* one Supvisors status publication
 GhostPub(g, p) ==
-  LET e1 == IF p.fsm \in MasterDriven /\ p.master = p.n THEN g.entered[p.n] \cup {p.fsm}
-            ELSE IF p.fsm \in {"OFF", "SYNCHRONIZATION", "ELECTION"} THEN {} ELSE g.entered[p.n]
+  LET e1 == IF p.fsm \in MasterDriven /\ p.master = p.n THEN g.entered[p.n] \cup {p.fsm} ELSE g.entered[p.n]
   IN [g EXCEPT !.fsmp[p.n] = p.fsm, !.mp[p.n] = p.master, !.entered[p.n] = e1]
 
 RECURSIVE GhostPubs(_, _)
@@ -103,7 +109,14 @@ GhostStep(g, r) ==
             ELSE g1
       g3 == [g2 EXCEPT !.susp = [n \in Inst |-> [j \in Inst |-> g2.susp[n][j] \/ <<n, j>> \in r.fails]]]
       g4 == IF r.a = "Rpc" /\ r.k = "end_sync" /\ r.d # 0 THEN [g3 EXCEPT !.usermaster[r.n] = r.d] ELSE g3
-  IN g4
+      \* failure notifications: consumed by this step, then queued by this step
+      g5 == IF r.a = "Proxy" /\ r.k = "NOTIF_FAILURE" /\ g4.pendF[r.n][r.d] > 0
+            THEN [g4 EXCEPT !.pendF[r.n][r.d] = @ - 1] ELSE g4
+      g6 == [g5 EXCEPT !.pendF = [n \in Inst |-> [j \in Inst |->
+                                   g5.pendF[n][j] + Cardinality({k \in DOMAIN r.nfail : r.nfail[k] = <<n, j>>})]]]
+      \* a crashed instance loses its FIFOs
+      g7 == IF r.a = "Crash" THEN [g6 EXCEPT !.pendF[r.n] = [j \in Inst |-> 0]] ELSE g6
+  IN g7
 
 -----------------------------------------------------------------------------
 (* C02 *)
@@ -120,8 +133,7 @@ PubsOK(lastf, lastm, ent, ps) ==
            f10 == FailStrat = "SHUTDOWN" /\ p.fsm = "SHUTTING_DOWN"
            after == ~(changed /\ p.fsm \in MasterDriven /\ p.master # p.n /\ p.master # 0) \/
                     p.fsm \in ent[p.master]
-           e1 == IF p.fsm \in MasterDriven /\ p.master = p.n THEN ent[p.n] \cup {p.fsm}
-                 ELSE IF p.fsm \in {"OFF", "SYNCHRONIZATION", "ELECTION"} THEN {} ELSE ent[p.n]
+           e1 == IF p.fsm \in MasterDriven /\ p.master = p.n THEN ent[p.n] \cup {p.fsm} ELSE ent[p.n]
            bad == (IF onGraph THEN {} ELSE {"C02.OnGraph"})
                   \cup (IF needs \/ f10 THEN {} ELSE {"C02.NeedsMaster"})
                   \cup (IF after \/ f10 THEN {} ELSE {"C02.SlaveAfterMaster"})
@@ -170,8 +182,10 @@ IPubsFold(cur, g, r, k) ==
            local == ~(s = "ISOLATED" /\ j = n)
            \* Accuracy: RUNNING / CHECKED -> FAILED needs a justification
            timeout == r.a = "Tick" /\ r.n = n /\ (r.pre[n].tick + 1) - g.recvAt[n][j] > T
+           \* an XML-RPC failure notification is handled (it only exists because an XML-RPC to j failed)
+           notif == r.a = "Proxy" /\ r.k = "NOTIF_FAILURE" /\ r.n = n /\ r.d = j /\ g.pendF[n][j] > 0
            acc == ~(chg /\ s = "FAILED" /\ old \in {"RUNNING", "CHECKED"}) \/ timeout \/ g.susp[n][j]
-                  \/ <<n, j>> \in r.fails
+                  \/ <<n, j>> \in r.fails \/ notif
            \* without auto_fence a FAILED peer becomes STOPPED
            fence == ~(chg /\ old = "FAILED" /\ s = "ISOLATED") \/ AutoFence
        IN (IF graph THEN {} ELSE {"C07.InstanceGraph"})
@@ -217,15 +231,18 @@ AliveSet(st) == {i \in Inst : st[i].alive}
 \* instances involved in no isolation with another live instance
 Clean(st) == {i \in AliveSet(st) : \A j \in AliveSet(st) : st[i].inst[j] # "ISOLATED" /\ st[j].inst[i] # "ISOLATED"}
 
+\* with auto_fence a healed partition leaves instances that isolated each other: nothing is demanded then
+NoIsolation(st) == \A i, j \in AliveSet(st) : st[i].inst[j] # "ISOLATED"
+
 Converged(st) ==
   LET C == Clean(st)
-  IN C = {} \/ \E m \in AliveSet(st) :
+  IN ~NoIsolation(st) \/ C = {} \/ \E m \in AliveSet(st) :
                   /\ st[m].master = m
                   /\ \A i \in C : st[i].master = m /\ st[i].inst[m] = "RUNNING"
 
 Settled(st) ==
   LET C == Clean(st)
-  IN C = {} \/ \E m \in AliveSet(st) :
+  IN ~NoIsolation(st) \/ C = {} \/ \E m \in AliveSet(st) :
                   /\ st[m].master = m /\ st[m].fsm \in {"OPERATION", "CONCILIATION"}
                   /\ \A i \in C : st[i].master = m /\ st[i].inst[m] = "RUNNING" /\ st[i].fsm = st[m].fsm
 
@@ -242,9 +259,9 @@ Known_F2(st) ==
 Known_F1(st) == \E i \in AliveSet(st) : st[i].fsm = "CONCILIATION" /\ st[i].master \in {0} \cup (Inst \ AliveSet(st))
 
 \* premises of C08
+\* (USER alone needs a user to end the synchronization: nothing is demanded of the automatic behaviour)
 SyncSatisfiable(st) ==
   \/ "TIMEOUT" \in Sync
-  \/ "USER" \in Sync
   \/ "STRICT" \in Sync /\ AliveSet(st) = Inst
   \/ "LIST" \in Sync /\ AliveSet(st) = Inst
   \/ "CORE" \in Sync /\ Core \subseteq AliveSet(st)
